@@ -79,6 +79,9 @@ func (e *Engine) load(p Value) Value {
 }
 
 func (e *Engine) checkWrite(o *Object) {
+	if e.tracking && e.forcing == 0 && (o.ID <= e.watermark || o.Lazy) {
+		e.writes++
+	}
 	if e.readonly && e.forcing == 0 && (o.ID <= e.watermark || o.Lazy) {
 		e.fail("write", "store to an object that existed before a read-only operation", "")
 	}
@@ -983,6 +986,9 @@ func (e *Engine) run(fn *ssa.Function, args []Value, env []Value) Value {
 }
 
 func (e *Engine) checkWriteMap(m *MapObj) {
+	if e.tracking && e.forcing == 0 && (m.ID <= e.watermark || m.Lazy) {
+		e.writes++
+	}
 	if e.readonly && e.forcing == 0 && (m.ID <= e.watermark || m.Lazy) {
 		e.fail("write", "update of a map that existed before a read-only operation", "")
 	}
